@@ -23,8 +23,8 @@ OPAQUE_NOTE = ('contracts assumed, not discharged by pyvc (their bodies are cove
                '(bs4 attribute-key and object-construction internals); '
                ' termination of the mutual recursion through sub-lists rests on A-ir')
 
-ALL_HTML = ['basic', 'nows', 'multiroot', 'forms', 'ranges', 'lang', 'dir', 'iframe', 'text', 'attrs', 'identical']
-ALL_XML = ['ns', 'svghtml', 'plain']
+ALL_HTML = ['basic', 'nows', 'multiroot', 'forms', 'ranges', 'lang', 'langmeta', 'radio-order', 'dir', 'iframe', 'text', 'attrs', 'identical']
+ALL_XML = ['ns', 'svghtml', 'plain', 'xforms', 'xlang']
 
 
 def hub_bounded(name, docs, groups, nsnames=('none',)):
